@@ -447,3 +447,34 @@ def config_devices_watched(repo, T, valuation="mixed"):
         r, _t, extra = build_one(repo, T, cfg, log, valuation, "GeckoAsyncFacade", inspect=inspect)
         res[(plat, cfg.stem, log.stem)] = (r, extra)
     return res
+
+
+def disconnect_twice(repo, T, valuation="mixed"):
+    """For the richest shipped (config, log) pair of every platform: the awaitable facade as built by its constructor is
+    disconnected TWICE (a reset that was interrupted, or two overlapping resets, disconnect the same facade again
+    before the manager forgets it) -> {(platform, cfg, log): (build result, None | 'raises ...' at the first / second
+    call, devices left with observers after the first call)}"""
+    best = {}
+    for _p, cfg, log in T.combos():
+        n = len(set(cfg.keys()) | set(log.keys()))
+        if n > best.get(cfg.platform, (0,))[0]:
+            best[cfg.platform] = (n, cfg, log)
+
+    def inspect(it, fac):
+        f = repo.method("GeckoAsyncFacade", "disconnect")
+        outcome = None
+        for i in (1, 2):
+            try:
+                it.steps = 0
+                it.call(f, fac, [])
+            except PyRaise as e:
+                outcome = f"the {'first' if i == 1 else 'second'} disconnect() raises {e.what}"
+                break
+            except Undecided as e:
+                raise AnalysisError(f"{f.qual} on the built facade: {e}")
+        return outcome
+    res = {}
+    for plat, (_n, cfg, log) in sorted(best.items()):
+        r, _t, extra = build_one(repo, T, cfg, log, valuation, "GeckoAsyncFacade", inspect=inspect)
+        res[(plat, cfg.stem, log.stem)] = (r, extra)
+    return res
